@@ -2035,3 +2035,26 @@ fn main() {}
 
 
 CERTS["uri_shapes"] = shapes_cert
+
+
+def check_axiom_refs(contracts_dir):
+    """every `/// certificate comp_<key>::<fn>[, <fn>..]` comment in front of an in-crate axiom must name a registered
+    certificate and theorems that its generated source really contains (referential integrity of the restatements)"""
+    problems, seen = [], 0
+    cache = {}
+    for name in sorted(os.listdir(contracts_dir)):
+        if not name.endswith(".rs"):
+            continue
+        txt = open(os.path.join(contracts_dir, name)).read()
+        for m in re.finditer(r"/// certificates? comp_(\w+?)::\{?([\w, \n/]+?)\}?\s*(?:\(|\n#\[verifier::external_body\])", txt):
+            key = m.group(1)
+            fns = [f.strip().lstrip("/").strip() for f in m.group(2).replace("\n", " ").split(",") if f.strip().lstrip("/").strip()]
+            seen += 1
+            if key not in CERTS:
+                problems.append("%s: axiom refers to an unknown certificate comp_%s" % (name, key)); continue
+            if key not in cache:
+                cache[key] = CERTS[key]()[0]
+            for f in fns:
+                if not re.search(r"pub proof fn %s\s*\(" % re.escape(f), cache[key]):
+                    problems.append("%s: certificate comp_%s has no theorem `%s`" % (name, key, f))
+    return seen, problems
